@@ -7,7 +7,7 @@ REPO="${VP_RUN_REPO:-/repo}"
 bad=0
 for d in benign/benign*.diff; do
   git -C $REPO checkout -q -- .
-  git -C $REPO apply $d || { echo "$d: DOES NOT APPLY"; continue; }
+  git -C $REPO apply "$(pwd)/$d" || { echo "$d: DOES NOT APPLY"; continue; }
   for p in C01 C02 C03 C04 C05 C06 C07 C08 C09 C10 C11 C12 C13 C14 C16 C17 C18 C19; do
     ./check $p quick > build/benign-$(basename $d .diff)-$p.log 2>&1; rc=$?
     if [ $rc -ne 0 ]; then bad=$((bad+1)); echo "$(basename $d) $p: ALARM rc=$rc $(grep -m2 -E 'signature|HARNESS' build/benign-$(basename $d .diff)-$p.log)"; fi
